@@ -40,13 +40,17 @@ def pruneList (H : List UInt8 → List UInt8) (P : List Nat → Bool) : List Nat
     pure (k :: ks)
 end
 
-/-- `NewMerkleProver` + `CreateProof` (before serialisation): the Merkle-proof cell over the pruned tree -/
+/-- `NewMerkleProver` + `CreateProof`: the Merkle-proof cell over the pruned tree. `SerializeBoc` starts by hashing
+the root it is given (`importCell` → `Hasher.HashString`), so a proof cell that is too deep is an error; the bytes
+themselves are C01's subject. -/
 def createProof (H : List UInt8 → List UInt8) (P : List Nat → Bool) (root : Cell) : Outcome Cell := do
   let info ← Cell.info H root
   let pr ← pruneCells H P [] root
   let h ← info.hashAt 0
   let d ← info.depthAt 0
-  pure (proofCell h d pr)
+  let proof := proofCell h d pr
+  let _ ← Cell.reprHash H proof
+  pure proof
 
 /-! ### specification of pruning: what the pruned tree is, in terms of the DEFINITION of hash and depth -/
 
